@@ -63,6 +63,7 @@ def parseCfgTok (c : Cfg) (tok : String) : Option Cfg :=
   | ["tok", "2"] => some { c with fastUa := true, token := false }
   | ["nsp", v] => (b01 v).map fun b => { c with nsPlain := b }
   | ["ina", v] => (b01 v).map fun b => { c with inactive := b }
+  | ["ka", _] => some c   -- keep-alive timer interval: timers are outside the model (harness-only scenario, judged by the oracle alone)
   | _ => none
 
 def parseCfg (toks : List String) : Option Cfg :=
